@@ -17,7 +17,7 @@ import common
 import rx
 import session
 import simnet
-from baton import Baton, SimLock, BatonSocket
+from baton import Baton, SimLock, BatonSocket, library_locks
 from rx import F
 
 
@@ -141,20 +141,20 @@ def factory_ws(accepts):
 def sender_run(payloads, keys, schedule, accepts, factory=False):
     import websocket
     b = Baton()
-    if factory:
-        ws, sock = factory_ws(accepts)
-    else:
-        ws = websocket.WebSocket()
-        sock = simnet.SimSocket([], accepts=accepts)
-    ws.sock = BatonSocket(sock, b)
-    ws.connected = True
-    if type(ws.lock).__name__ != "NoLock":       # the object's own choice of lock stays (only its implementation is scheduled)
-        ws.lock = SimLock(b, "lock")
-    klist = list(keys)
-    ws.set_mask_key(lambda n: klist.pop(0))
-    for i, p in enumerate(payloads):
-        b.spawn(i, (lambda p=p: ws.send_binary(p)))
-    eff = b.run(schedule)
+    # the object's own locks stay — made by the library where and when it makes them; only their implementation is scheduled
+    with library_locks(b):
+        if factory:
+            ws, sock = factory_ws(accepts)
+        else:
+            ws = websocket.WebSocket()
+            sock = simnet.SimSocket([], accepts=accepts)
+        ws.sock = BatonSocket(sock, b)
+        ws.connected = True
+        klist = list(keys)
+        ws.set_mask_key(lambda n: klist.pop(0))
+        for i, p in enumerate(payloads):
+            b.spawn(i, (lambda p=p: ws.send_binary(p)))
+        eff = b.run(schedule)
     return bytes(sock.sent), eff, [b.ts[i].exc for i in range(len(payloads))], [b.ts[i].result for i in range(len(payloads))]
 
 
@@ -219,26 +219,24 @@ def run_senders(ctx):
 def receiver_run(stream_chunks, nmsgs, nthreads, schedule, share):
     import websocket
     b = Baton()
-    ws = websocket.WebSocket()
-    sock = simnet.SimSocket(stream_chunks)
-    ws.sock = BatonSocket(sock, b)
-    ws.connected = True
-    ws.lock = SimLock(b, "lock")
-    ws.readlock = SimLock(b, "readlock")
-    ws.frame_buffer.lock = SimLock(b, "framelock")
-    ws.set_mask_key(lambda n: b"\x00" * n)
-    got = {i: [] for i in range(nthreads)}
+    with library_locks(b):        # the library's own locks, scheduled (none assigned by the harness)
+        ws = websocket.WebSocket()
+        sock = simnet.SimSocket(stream_chunks)
+        ws.sock = BatonSocket(sock, b)
+        ws.connected = True
+        ws.set_mask_key(lambda n: b"\x00" * n)
+        got = {i: [] for i in range(nthreads)}
 
-    def worker(i, k):
-        for j in range(k):
-            try:
-                # the three spellings of "receive one message": recv(), next(ws), iteration
-                got[i].append(ws.recv() if (i + j) % 3 == 0 else (ws.next() if (i + j) % 3 == 1 else next(iter(ws))))
-            except Exception as e:  # noqa
-                got[i].append("X:" + common.canon_exc(e))
-    for i in range(nthreads):
-        b.spawn(i, (lambda i=i: worker(i, share[i])))
-    eff = b.run(schedule)
+        def worker(i, k):
+            for j in range(k):
+                try:
+                    # the three spellings of "receive one message": recv(), next(ws), iteration
+                    got[i].append(ws.recv() if (i + j) % 3 == 0 else (ws.next() if (i + j) % 3 == 1 else next(iter(ws))))
+                except Exception as e:  # noqa
+                    got[i].append("X:" + common.canon_exc(e))
+        for i in range(nthreads):
+            b.spawn(i, (lambda i=i: worker(i, share[i])))
+        eff = b.run(schedule)
     return got, eff, bytes(sock.sent), list(ws.readlock.log)
 
 
@@ -246,23 +244,23 @@ def frame_receiver_run(stream_chunks, nframes, nthreads, schedule, share):
     """workers call recv_frame() directly (no read lock there: only the frame buffer's own lock protects the parse state)."""
     import websocket
     b = Baton()
-    ws = websocket.WebSocket()
-    sock = simnet.SimSocket(stream_chunks)
-    ws.sock = BatonSocket(sock, b)
-    ws.connected = True
-    ws.frame_buffer.lock = SimLock(b, "framelock")
-    got = {i: [] for i in range(nthreads)}
+    with library_locks(b):        # the library's own locks, scheduled (none assigned by the harness)
+        ws = websocket.WebSocket()
+        sock = simnet.SimSocket(stream_chunks)
+        ws.sock = BatonSocket(sock, b)
+        ws.connected = True
+        got = {i: [] for i in range(nthreads)}
 
-    def worker(i, k):
-        for _ in range(k):
-            try:
-                f = ws.recv_frame()
-                got[i].append((f.opcode, f.fin, bytes(f.data)))
-            except Exception as e:  # noqa
-                got[i].append("X:" + common.canon_exc(e))
-    for i in range(nthreads):
-        b.spawn(i, (lambda i=i: worker(i, share[i])))
-    eff = b.run(schedule)
+        def worker(i, k):
+            for _ in range(k):
+                try:
+                    f = ws.recv_frame()
+                    got[i].append((f.opcode, f.fin, bytes(f.data)))
+                except Exception as e:  # noqa
+                    got[i].append("X:" + common.canon_exc(e))
+        for i in range(nthreads):
+            b.spawn(i, (lambda i=i: worker(i, share[i])))
+        eff = b.run(schedule)
     return got, eff
 
 
@@ -372,34 +370,32 @@ def mixed_run(stream_chunks, payloads, keys, schedule, accepts):
     """thread 0 receives (and so answers the pings in the stream); threads 1.. send."""
     import websocket
     b = Baton()
-    ws = websocket.WebSocket()
-    sock = simnet.SimSocket(stream_chunks, accepts=accepts)
-    ws.sock = BatonSocket(sock, b)
-    ws.connected = True
-    ws.lock = SimLock(b, "lock")
-    ws.readlock = SimLock(b, "readlock")
-    ws.frame_buffer.lock = SimLock(b, "framelock")
-    klist = list(keys)
-    ws.set_mask_key(lambda n: klist.pop(0))
-    drawn = []
-    orig = ws.get_mask_key
+    with library_locks(b):        # the library's own locks, scheduled (none assigned by the harness)
+        ws = websocket.WebSocket()
+        sock = simnet.SimSocket(stream_chunks, accepts=accepts)
+        ws.sock = BatonSocket(sock, b)
+        ws.connected = True
+        klist = list(keys)
+        ws.set_mask_key(lambda n: klist.pop(0))
+        drawn = []
+        orig = ws.get_mask_key
 
-    def rec_key(n):
-        k = orig(n)
-        drawn.append(k)
-        return k
-    ws.get_mask_key = rec_key
-    got = []
+        def rec_key(n):
+            k = orig(n)
+            drawn.append(k)
+            return k
+        ws.get_mask_key = rec_key
+        got = []
 
-    def reader():
-        try:
-            got.append(ws.recv())
-        except Exception as e:  # noqa
-            got.append("X:" + common.canon_exc(e))
-    b.spawn(0, reader)
-    for i, p in enumerate(payloads):
-        b.spawn(i + 1, (lambda p=p: ws.send_binary(p)))
-    eff = b.run(schedule, prestart=False)
+        def reader():
+            try:
+                got.append(ws.recv())
+            except Exception as e:  # noqa
+                got.append("X:" + common.canon_exc(e))
+        b.spawn(0, reader)
+        for i, p in enumerate(payloads):
+            b.spawn(i + 1, (lambda p=p: ws.send_binary(p)))
+        eff = b.run(schedule, prestart=False)
     return bytes(sock.sent), eff, got, drawn
 
 
